@@ -16,7 +16,7 @@ pub open spec fn first_layer_ok(r: Seq<FriLayerQuery>, queries: Seq<Felt>, evals
         (#[trigger] r[i]).index == queries[i] && r[i].y_value == evals[i] && r[i].x_inv_value@ == fdiv(1, fmul(xs[i]@, INV3))
 }
 
-//@repo crates/fri/src/first_layer.rs fn gather_first_layer_queries props=C06,C07 rules=R2_enumerate_queries
+//@repo crates/fri/src/first_layer.rs fn gather_first_layer_queries props=C01,C02,C06,C07 rules=R2_enumerate_queries
 pub fn gather_first_layer_queries(
     queries: &[Felt],
     evaluations: Vec<Felt>,
@@ -27,7 +27,7 @@ pub fn gather_first_layer_queries(
         x_values@.len() == queries@.len(),     // [C18:first-layer-one-point-per-query]
         forall|i: int| 0 <= i < x_values@.len() ==> (#[trigger] x_values@[i])@ != 0, // [C18:first-layer-points-nonzero-else-division-panics]
     ensures
-        first_layer_ok(r@, queries@, evaluations@, x_values@), // [C06,C07:first-layer-queries-carry-index-value-and-inverse-point]
+        first_layer_ok(r@, queries@, evaluations@, x_values@), // [C01,C02,C06,C07:first-layer-queries-carry-index-value-and-inverse-point]
 {
     let mut fri_queries/*+*/: Vec<FriLayerQuery>/*-*/ = Vec::new();
 
